@@ -114,7 +114,19 @@ def c_acc(c):
         return c
 
 
-CORRUPT = {"TraceAccumulate": c_acc, "TraceSweep": c_sweep, "TraceBottleneck": c_bott, "TraceWasserstein": c_wass, "TraceMGH": c_mgh, "TraceGrid": c_grid, "TraceImager": c_imager,
+def c_lazy(c):
+    if c["events"]:
+        c["events"][-1][3] += 1        # the lazily built run returns something else
+        return c
+
+
+def c_heat(c):
+    if c["h"][0] == 1:
+        c["h"][1] = fadd(c["h"][1], Fraction(1, 1000))
+        return c
+
+
+CORRUPT = {"TraceAccumulate": c_acc, "TraceLazy": c_lazy, "TraceHeat": c_heat, "TraceSweep": c_sweep, "TraceBottleneck": c_bott, "TraceWasserstein": c_wass, "TraceMGH": c_mgh, "TraceGrid": c_grid, "TraceImager": c_imager,
            "TraceTransformers": c_transf, "TraceAlgebra": c_algebra, "TraceNorms": c_norms, "TraceEntropy": c_entropy, "MetricLaws": c_laws,
            "TraceKernel": c_kernel, "TraceImage": c_image, "TracePure": c_pure, "PlotScene": c_plot}
 RESULTS = {}
